@@ -387,6 +387,75 @@ pub fn check_analysis_print(b: &Bound, formulas: &[String], print: Option<(&str,
     }
 }
 
+/// The context archive was written for ANOTHER network with the same variables (every update function erased - the same
+/// symbolic variables when the analysed network has no parameters of its own is not required: only the variable names and the
+/// number of BDD variables have to match for the bundle to load): the result archive must describe the ANALYSED network - its
+/// model.aeon must parse to a network whose graph has the unit set of the analysed one, and every entry must be the result on it.
+pub fn check_analysis_ctx_foreign_model(b: &Bound) -> Option<String> {
+    let dir = tempfile::tempdir().ok()?;
+    let (cpath, opath) = (dir.path().join("ctx.zip"), dir.path().join("out.zip"));
+    let v0 = b.spec.vars[0].clone();
+    let formulas: Vec<String> = vec![format!("%p% & {v0}"), "EF %p%".into(), "!{x} in %p%: AX {x}".into()];
+    let r = guarded(AssertUnwindSafe(|| -> Option<String> {
+        let g = match get_extended_symbolic_graph(&b.bn, 1) {
+            Ok(g) => g,
+            Err(e) => return Some(format!("graph: {e}")),
+        };
+        let fams = label_families(b, 1);
+        let sets: HashMap<String, GraphColoredVertices> = HashMap::from([("p".to_string(), b.mk_set_in(&g, &fams[0].1.wild[0]))]);
+        // a foreign model text over the same variable names: the analysed model with its lines in reverse order and a comment line
+        // (same network, other text), and - where the network has no parameters - a variant with one update function negated
+        let own = b.bn.to_string();
+        let mut foreign: Vec<String> = vec![format!("# written by another run\n{}", own.lines().rev().collect::<Vec<_>>().join("\n"))];
+        if b.bn.num_parameters() == 0 && b.bn.num_implicit_parameters() == 0 {
+            if let Some(l) = own.lines().find(|l| l.starts_with('$')) {
+                let (head, body) = l.split_once(':')?;
+                foreign.push(own.replace(l, &format!("{head}: !({})", body.trim())).replace(" -> ", " -?? ").replace(" -| ", " -?? ").replace(" -? ", " -?? "));
+            }
+        }
+        for ftext in foreign {
+            if let Err(e) = build_result_archive(sets.clone(), cpath.to_str().unwrap(), &ftext, vec![]) {
+                return Some(format!("writing the context archive fails: {e}"));
+            }
+            if let Err(e) = analyse_formulae(&b.bn, formulas.clone(), PrintOptions::NoPrint, Some(opath.to_str().unwrap().to_string()), Some(cpath.to_str().unwrap().to_string())) {
+                return Some(format!("analyse_formulae with a context archive that carries another model text fails: {e}"));
+            }
+            let entries = match cli::read_zip(&opath) {
+                Ok(e) => e,
+                Err(e) => return Some(format!("result archive unreadable: {e}")),
+            };
+            let model = match entries.iter().find(|(n, _)| n == "model.aeon") {
+                Some((_, m)) => m.clone(),
+                None => return Some("result archive has no model.aeon".into()),
+            };
+            let archived = match BooleanNetwork::try_from(model.as_str()) {
+                Ok(n) => n,
+                Err(e) => return Some(format!("archived model.aeon does not parse: {e}")),
+            };
+            if archived.to_string() != b.bn.to_string() {
+                return Some(format!("the result archive carries a model.aeon that is not the analysed network (the context archive carried `{}`)", crate::report::truncate(&ftext.replace('\n', "; "), 120)));
+            }
+            let loaded = match load_bdd_bundle(opath.to_str().unwrap(), g.symbolic_context()) {
+                Ok(l) => l,
+                Err(e) => return Some(format!("load_bdd_bundle fails on the analysis archive: {e}")),
+            };
+            for (i, f) in formulas.iter().enumerate() {
+                match (loaded.get(&format!("formula-{i}")), mc::model_check_extended_formula_dirty(f, &g, &sets)) {
+                    (Some(s), Ok(w)) if s.as_bdd() == w.as_bdd() => {}
+                    (Some(_), Ok(_)) => return Some(format!("line {i} ({f}): archived set differs from the evaluation on the analysed network")),
+                    (None, _) => return Some(format!("entry formula-{i} missing")),
+                    (_, Err(e)) => return Some(format!("in-memory evaluation of {f} fails: {e}")),
+                }
+            }
+        }
+        None
+    }));
+    match r {
+        Ok(v) => v,
+        Err(p) => Some(format!("panic: {p}")),
+    }
+}
+
 /// Every formula on its own through the single-formula variant `analyse_formula`, with a context archive written for the
 /// number of spare variable sets that formula needs; the context archive must be left untouched.
 pub fn check_analysis_ctx_single(b: &Bound) -> Option<String> {
@@ -449,6 +518,9 @@ pub fn check_analysis_ctx_single(b: &Bound) -> Option<String> {
 pub fn check_analysis_ctx(b: &Bound, mode: u8) -> Option<String> {
     if mode == 2 {
         return check_analysis_ctx_single(b);
+    }
+    if mode == 3 {
+        return check_analysis_ctx_foreign_model(b);
     }
     let dir = tempfile::tempdir().ok()?;
     let cpath = dir.path().join("ctx.zip");
@@ -707,10 +779,10 @@ pub fn run(tier: &str) -> Result<Report, String> {
     }
     // the archive -> analysis -> archive chain with context sets inside and outside the valid colours
     for b in nets.iter().filter(|b| which.contains(&b.name.as_str())) {
-        for mode in 0..3u8 {
+        for mode in 0..4u8 {
             rep.evaluations += 1;
             if let Some(w) = check_analysis_ctx(b, mode) {
-                rep.violations.push(Violation { case: json!({"kind": "archive", "net": b.spec, "analysis_ctx": true, "mode": mode}), what: format!("analyse_formulae with a context archive on {} (mode {mode}: 0 separate paths, 1 result written over the context archive, 2 single-formula variant): {w}", b.name), size: 6 });
+                rep.violations.push(Violation { case: json!({"kind": "archive", "net": b.spec, "analysis_ctx": true, "mode": mode}), what: format!("analyse_formulae with a context archive on {} (mode {mode}: 0 separate paths, 1 result written over the context archive, 2 single-formula variant, 3 context archive carrying another model text): {w}", b.name), size: 6 });
             }
         }
     }
